@@ -405,6 +405,10 @@ class Run:
         self.archive_names = {d.remote_filename for d in self.world.ds.values()}
         self.sim = K.Sim(stream, self.root, classify=self.classify, keep_log=keep_log)
         self.sim.world = self.world
+        self.sim.procs = isolate.process_states()
+        # sequential scenarios: half of them are one process making several calls (module state carries over), half are
+        # one process per load; concurrent loaders are always separate processes
+        self.one_process = scn.get("discipline") == "serial" and scn.get("one_process", True)
         self.sim.net_handler = self.net_handler
         self.sim.crash_prefixes = CRASH_SITES
         self.hist = {d.name: [(0, False)] for d in self.targets}
@@ -596,6 +600,8 @@ class Run:
             a.name_collide = "00n001x"
         if self.scn.get("same_pid"):
             a.attrs["pid"] = 1
+        if self.one_process and role != "offline":
+            a.attrs["proc"] = ("process", 0)
         a.attrs["first_step"] = None
         a.attrs["last_step"] = None
         return a
@@ -636,6 +642,8 @@ class Run:
         if ds.gzip:
             kw["gzip"] = True
         self.sim.probe_active = True
+        if self.sim.procs is not None:
+            self.sim.procs.switch_to(("probe",), fresh=True)      # "a later load": a new process
         try:
             with warnings.catch_warnings():
                 warnings.simplefilter("ignore")
@@ -833,7 +841,11 @@ class Run:
                     self.fail("P3/transient-error-not-absorbed", key,
                               f"{who}: failure {kinds.index(next(k for k, e in injected if e is exc)) + 1} of {f} "
                               f"escaped although n_retries={r}")
-                if terminal in CORRUPT:
+                if terminal in CORRUPT and returned and self.overlapped(a):
+                    # the data it returned is the verified payload (P2 above): with other loaders around it may have
+                    # been served the entry one of them completed; only a lone loader must answer a bad body with OSError
+                    self.stats["probe:corrupt-body-but-served-by-concurrent-loader"] += 1
+                elif terminal in CORRUPT:
                     if returned or not isinstance(exc, OSError):
                         self.fail("P4/checksum-mismatch-not-OSError", key,
                                   f"{who}: the downloaded body was '{terminal}' (SHA-256 differs from the pinned one); "
@@ -1088,6 +1100,23 @@ def run_unit(params, seed):
                 out.add(p, _run(p, S.Stream(seed=seed)))
         out.stats["pairsweep:schedules-enumerated"] += 2 * nb
         return out
+    if gen == "triplesweep":
+        # three phases: P starts and gets p1 steps, B starts and gets b0 steps, P runs to its end (it fails, or not);
+        # then every schedule "B runs i steps, C runs j steps (and is then killed, or not), B finishes, C finishes"
+        base = params["scenario"]
+        i, nc, p1, b0 = params["i"], params["nc"], params["p1"], params["b0"]
+        import copy
+        for j in range(1, nc + 1):
+            for kill in (False, True):
+                scn = copy.deepcopy(base)
+                scn["discipline"] = "script"
+                scn["script"] = [[0, p1], [1, b0], [0, 10 ** 6], [1, i], [2, j], [1, 10 ** 6], [2, 10 ** 6]]
+                if kill:
+                    scn["actors"][2]["crash_at"] = j
+                p = {"gen": "scn", "scenario": scn}
+                out.add(p, _run(p, S.Stream(seed=seed)))
+        out.stats["triplesweep:schedules-enumerated"] += 2 * nc
+        return out
     res = _run(params, S.Stream(seed=seed))
     out.add(params, res)
     return out
@@ -1188,6 +1217,24 @@ def pairsweep_scenarios(tier):
     return out
 
 
+def triplesweep_scenarios(tier):
+    """Three loaders of one dataset: a prelude loader P that fails (corrupt body) or succeeds while B has already
+    started, then B and a late C in every two-context-switch schedule."""
+    out = []
+    variants = [("corrupt_flip", False, 9, 9)]
+    if tier != "quick":
+        variants += [("ok", True, 9, 9), ("corrupt_flip", False, 14, 12), ("urlerror", False, 9, 9)]
+    for pkind, force, p1, b0 in variants:
+        pplan = [{"kind": pkind, "latency": 0.2, "chunks": 1, "partial": 0}]
+        p = _actor_spec("syn-x", force=force, n_retries=0, delay=0.0, plan=pplan)
+        b = _actor_spec("syn-x", force=force, n_retries=0, delay=0.0, plan=[{"kind": "ok", "latency": 0.2, "chunks": 1}])
+        c = _actor_spec("syn-x", force=force, n_retries=0, delay=0.0, plan=[{"kind": "ok", "latency": 0.2, "chunks": 2}], split=2)
+        out.append(({"gen": "scn", "world": "synthetic", "gzip": False, "rows": [30, 1, 5], "targets": ["syn-x"],
+                     "setup": "warm" if force else "cold", "home": "env", "discipline": "serial", "enabled": [],
+                     "partition": None, "actors": [p, b, c]}, p1, b0))
+    return out
+
+
 def plan(tier, verif_seed):
     rng = random.Random(verif_seed * 1000003 + 19)
     units = []
@@ -1198,6 +1245,11 @@ def plan(tier, verif_seed):
         nb = max(na, _yields_of(r0, 1) + 1) + 8      # the second loader may download too, and take a longer path
         for i in range(0, na + 1):
             units.append({"gen": "pairsweep", "scenario": scn, "i": i, "nb": nb})
+    for scn, p1, b0 in triplesweep_scenarios(tier):
+        r0 = _run({"gen": "scn", "scenario": scn}, S.Stream(seed=1))
+        nb = max(_yields_of(r0, 0), _yields_of(r0, 1)) + 6
+        for i in range(0, nb + 1):
+            units.append({"gen": "triplesweep", "scenario": scn, "i": i, "nc": nb, "p1": p1, "b0": b0})
     bases = base_scenarios()
     for scn in bases:
         units.append({"gen": "sweep", "scenario": scn, "crash_actor": 0})
@@ -1214,7 +1266,9 @@ def plan(tier, verif_seed):
     if tier == "quick":
         pairs = rng.sample(pairs, min(len(pairs), 400))
     for i, (a, b) in enumerate(pairs):
-        units.append({"gen": "scn", "scenario": pair_scenario(a, b, variant=(i % 8) if i % 8 < 4 else 0)})
+        scn = pair_scenario(a, b, variant=(i % 8) if i % 8 < 4 else 0)
+        scn["one_process"] = (i // 8) % 3 != 2       # two thirds: one process loads A then B; one third: a process each
+        units.append({"gen": "scn", "scenario": scn})
     n_storm = int(os.environ.get("VERIF_STORMS", "0")) or (16000 if tier == "quick" else 600000)
     units.extend({"gen": "storm"} for _ in range(n_storm))
     return units
@@ -1227,6 +1281,8 @@ def describe():
                 "home on tmpfs, scheduled one at a time by a seeded scheduler with a fake remote, virtual sleep and "
                 "kill-at-yield-point crashes, followed by a fault-free calm phase (fresh load, then offline load). "
                 "Generators: G-sweep = every crash point of each base scenario (solo and with a second loader), "
+                "G-triplesweep = the same enumeration for a second and a late third loader after a first loader that failed "
+                "while the second had already started, "
                 "G-retry = the table n_retries 0..4 x 0..n_retries+2 URLError/TimeoutError patterns x terminal outcome x "
                 "{first download, forced refresh of an existing entry}, "
                 "G-pairs = ordered pairs of named remote datasets loaded into one home, G-storm = seeded swarm over all "
@@ -1257,7 +1313,8 @@ def describe():
                              "n_retries": "0..4", "calm_phase_step_budget": CALM_STEP_BUDGET},
                   "exhaustive_subspaces": ["crash points of the base scenarios (G-sweep)", "retry table (G-retry)",
                                            "two-context-switch schedules of two loaders, with and without a kill of "
-                                           "the second (G-pairsweep)",
+                                           "the second (G-pairsweep), and of a second and third loader after a failed "
+                                           "first (G-triplesweep)",
                                            "ordered dataset pairs (G-pairs; thorough tier only)"]},
     }
 
